@@ -133,6 +133,7 @@ type FuncContract struct {
 	Flags       map[string]bool
 	Dispatch    map[string][]string // interface type key -> allowed dynamic types
 	Cases       []Clause            // case split on entry values: every obligation is discharged per case
+	Reveal      map[string]bool     // opaque predicates whose definition is visible while verifying this function
 	Extern      bool
 	IfaceMethod bool
 	Sig         string
@@ -157,6 +158,7 @@ type UFuncDecl struct {
 }
 
 type PureDecl struct {
+	Opaque bool
 	Name   string
 	Params []Binder
 	Ret    *TypeExpr // nil for pred (Bool)
@@ -630,8 +632,8 @@ func parseExprString(s string) (e Expr, err error) {
 // ---------------------------------------------------------------------------
 // Contract file reader
 
-var topKeywords = map[string]bool{"deterministic": true, "func": true, "ghost": true, "ufunc": true, "pure": true, "pred": true, "axiom": true, "lemma": true, "type": true, "extern": true}
-var clauseKeywords = map[string]bool{"cases": true, "dispatch": true, "requires": true, "ensures": true, "modifies": true, "serves": true, "loop": true, "invariant": true,
+var topKeywords = map[string]bool{"opaque": true, "deterministic": true, "func": true, "ghost": true, "ufunc": true, "pure": true, "pred": true, "axiom": true, "lemma": true, "type": true, "extern": true}
+var clauseKeywords = map[string]bool{"reveal": true, "cases": true, "dispatch": true, "requires": true, "ensures": true, "modifies": true, "serves": true, "loop": true, "invariant": true,
 	"at": true, "after": true, "assert": true, "assume": true, "flag": true, "set": true}
 
 type rawLine struct {
@@ -802,7 +804,17 @@ func readSpecFile(path string, isSpec bool) (*SpecFile, error) {
 			}
 			sf.UFuncs = append(sf.UFuncs, ud)
 			cur = nil
-		case "pure", "pred":
+		case "pure", "pred", "opaque":
+			opaque := false
+			if w == "opaque" {
+				opaque = true
+				w2 := firstWord(rest)
+				if w2 != "pred" {
+					return nil, perr(g, fmt.Errorf("opaque must be followed by pred"))
+				}
+				rest = strings.TrimSpace(rest[len(w2):])
+				w = "pred"
+			}
 			isPred := w == "pred"
 			if !isPred {
 				w2 := firstWord(rest)
@@ -820,7 +832,7 @@ func readSpecFile(path string, isSpec bool) (*SpecFile, error) {
 				return nil, perr(g, err)
 			}
 			p := &parser{toks: toks, src: head}
-			pd := &PureDecl{Text: strings.TrimSpace(body)}
+			pd := &PureDecl{Text: strings.TrimSpace(body), Opaque: opaque}
 			if e := catch(func() {
 				pd.Name = p.ident()
 				p.expect("(")
@@ -943,6 +955,13 @@ func readSpecFile(path string, isSpec bool) (*SpecFile, error) {
 			case "serves":
 				for _, f := range strings.FieldsFunc(rest, func(r rune) bool { return r == ' ' || r == ',' || r == ';' }) {
 					cur.Serves = append(cur.Serves, f)
+				}
+			case "reveal":
+				if cur.Reveal == nil {
+					cur.Reveal = map[string]bool{}
+				}
+				for _, f := range strings.FieldsFunc(rest, func(r rune) bool { return r == ' ' || r == ',' }) {
+					cur.Reveal[f] = true
 				}
 			case "cases":
 				// cases name1: expr | name2: expr
